@@ -220,6 +220,9 @@ class Ctx:
         vc = (res.get("extra") or {}).get("violation_counts") or {}
         if vc:
             self.notes.setdefault("violation_counts", {}).update(vc)
+        for k, v in (res.get("extra") or {}).items():
+            if k != "violation_counts" and not self.replay:
+                self.notes.setdefault("harness", {})[(kind + ":" if kind else "") + k] = v
         for v in res.get("violations", []) or []:
             self.violation(v.get("sig", "?"), v.get("detail", ""), v.get("case"))
 
